@@ -8,6 +8,7 @@ only (fetch, hook runs, add, commit, tag, push) - read-only queries may be issue
 """
 import itertools
 import os
+import sys
 
 from .. import fakevcs, pool, world
 from ..stats import Stats
@@ -16,7 +17,7 @@ ID = "C10"
 LEVEL = "model_checking"
 MIN_OUTCOMES = 5
 MANIFEST = {
-    'text': 'Complete enumeration of the VCS configuration lattice (thorough: full product incl. all 27 CLI tri-state combinations; quick: one tri-state at a time + a slice of pairs) with hooks {absent, ok, fails, killed by a signal} given by config or on the command line, `.git` as a directory or as a file (linked work tree), on the real `update` with a fake git/hg at the subprocess seam, plus single-fault injection at every effect position (each once with a neutral error text and once with the text the real tool prints for the usual cause - tag already exists, nothing to commit, failed to push, not a repository): the ordered effect trace of each run must be exactly the prefix the property prescribes for the effective settings. A seam-conformance pass re-runs ~1,000 configurations with fake executables first on PATH and requires identical command traces (otherwise HARNESS-ERROR, never a violation).',
+    'text': "Complete enumeration of the VCS configuration lattice (thorough: full product incl. all 27 CLI tri-state combinations; quick: one tri-state at a time + a slice of pairs) with hooks {absent, ok, fails, killed by a signal} given by config or on the command line, `.git` as a directory or as a file (linked work tree), on the real `update` with a fake git/hg at the subprocess seam, plus single-fault injection at every effect position (each once with a neutral error text and once with the text the real tool prints for the usual cause - tag already exists, nothing to commit, failed to push, not a repository): the ordered effect trace of each run must be exactly the prefix the property prescribes for the effective settings. The full-configuration points also run as `python -m bumpver` child processes under an ASCII locale (git's answers contain a non-ASCII branch name) with fake executables on PATH and must issue the same commands. A seam-conformance pass re-runs ~1,000 configurations with fake executables first on PATH and requires identical command traces (otherwise HARNESS-ERROR, never a violation).",
     'note': 'double faults, real hg and non-executable hook scripts are outside the bound; the git command set is executed for real by C08/C11/C12',
     'technique': 'explicit-state exploration of the configuration lattice + single-fault enumeration on the implementation, trace monitors',
 }
@@ -95,6 +96,8 @@ def explore(tier, seed):
     conf = [p for p in pts if p["kind"] == "git" and p["variant"] == "plain" and p["cli"] == (None, None, None) and p["tagmsg"] == "set"
             and not p["allow_dirty"] and p["hooks"] in (("ok", "ok"), ("fails", "ok"), ("absent", "absent"))]
     chunks += [("seam", part) for part in pool.split(conf, 16)]
+    loc = [p for p in conf if p["cfg"] == (True, True, True) and p["hooks"] == ("ok", "ok") and p["tree"] == "clean" and not p["dry"]]
+    chunks += [("locale", part) for part in pool.split(loc, 4)]
     return pool.run_chunks(run_chunk, chunks)
 
 
@@ -350,6 +353,48 @@ def seam_conformance(st, p, base):
     st.outcomes["seam-conformance:identical-traces"] += 1
 
 
+def ascii_locale(st, p, base):
+    """The same configuration point run as `python -m bumpver` in a child process whose locale is plain ASCII (LC_ALL=C, UTF-8 mode off),
+    with fake executables on PATH: the issued commands must be those of the in-process run (git's output contains a non-ASCII branch
+    name; nothing in the sequence of steps may depend on the locale)."""
+    import subprocess as sp
+
+    o1, fake, files, _after = execute(p)
+    want = []
+    for e in fake.log:
+        if e["type"] == "hook":
+            want.append(["HOOK", os.path.basename(e["path"]), e["env"].get("BUMPVER_OLD_VERSION"), e["env"].get("BUMPVER_NEW_VERSION")])
+        else:
+            want.append(e["argv"])
+    fake_dir, bin_dir = os.path.join(base, "fake"), os.path.join(base, "bin")
+    world.clear_dir(".")
+    world.write_tree(files)
+    os.mkdir(".git")
+    fakevcs.path_fake_setup(fake_dir, bin_dir, tags_all=["1.2.1", "0.9.0"], status=STATUS[p["tree"]], remote=p["remote"])
+    for name, mode in zip(("pre.sh", "post.sh"), p["hooks"]):
+        if mode != "absent":
+            fakevcs.path_fake_hook(name, 0 if mode == "ok" else 3)
+    env = dict(os.environ, LC_ALL="C", LANG="C", PYTHONUTF8="0", PYTHONCOERCECLOCALE="0", FAKE_DIR=fake_dir,
+               PATH=bin_dir + os.pathsep + os.environ.get("PATH", ""), PYTHONPATH=os.environ.get("BUMPVER_SRC", "/repo/src"), PYTHONDONTWRITEBYTECODE="1")
+    r = sp.run([sys.executable, "-m", "bumpver"] + args_of(p), env=env, stdout=sp.PIPE, stderr=sp.PIPE)
+    got = fakevcs.path_fake_trace(fake_dir)
+    st.evaluations += 2
+    st.transitions += 1
+    st.validated += 1
+    case = {"point": {k: (list(v) if isinstance(v, tuple) else v) for k, v in p.items()}, "args": args_of(p), "ascii_locale": True}
+    st.observe((sorted((k, str(v)) for k, v in p.items()), "ascii-locale", r.returncode, got))
+    st.state("ascii-locale", sorted((k, str(v)) for k, v in p.items()))
+    st.nontriv("ascii-locale", sorted((k, str(v)) for k, v in p.items()))
+    if got != want or (o1.exit == 0) != (r.returncode == 0):
+        st.outcomes["violation"] += 1
+        first = next((i for i, (a, b) in enumerate(zip(got, want)) if a != b), min(len(got), len(want)))
+        st.violation(f"C10:steps-differ-under-an-ascii-locale:{p['remote']}", case,
+                     {"exit": r.returncode, "exit_utf8": o1.exit, "first_difference_at": first, "issued": got[first:first + 3], "expected": want[first:first + 3],
+                      "stderr": r.stderr.decode("utf-8", "replace")[-300:]})
+    else:
+        st.outcomes["ascii-locale:same-steps"] += 1
+
+
 def run_chunk(chunk):
     import datetime as dt
 
@@ -362,6 +407,12 @@ def run_chunk(chunk):
         base = pool.fresh_dir("c10seam")
         for p in pts:
             seam_conformance(st, p, base)
+        os.chdir("/")
+        return st
+    if kind == "locale":
+        base = pool.fresh_dir("c10loc")
+        for p in pts:
+            ascii_locale(st, p, base)
         os.chdir("/")
         return st
     for p in pts:
